@@ -39,7 +39,11 @@ def _one(rec):
         src = open(path).read()
         if src.count(rec["old"]) < 1:
             return rec, "not-applicable", "anchor text no longer present in the tree"
-        new_src = src.replace(rec["old"], rec["new"], 1)
+        occ = int(rec.get("occurrence", 1))  # which occurrence of the anchor text is edited (the module may define a function twice)
+        if src.count(rec["old"]) < occ:
+            return rec, "not-applicable", f"anchor text occurs fewer than {occ} times"
+        parts = src.split(rec["old"])
+        new_src = rec["old"].join(parts[:occ]) + rec["new"] + rec["old"].join(parts[occ:])
         try:
             compile(new_src, path, "exec")
         except SyntaxError as e:
